@@ -530,9 +530,22 @@ def execute(program):
                                  'chain': [enter, ch]}[how]
                         stats.inc('op:derive_delta-' + how)
                     changes = {k: decode(k, v) for k, v in ch.items()}
-                    want = before[j]
+                    want_model = before[j]
                     for st_ch in steps:
-                        want = predict_fields(want, st_ch)
+                        want_model = predict_fields(want_model, st_ch)
+                    # what "a state constructed directly with the same field values" has: ask the
+                    # constructor (the property's own reference), not a model of its normalisations
+                    want = want_model
+                    try:
+                        f = parent['ps'].get_fields()
+                        for st_ch in steps:
+                            f.update({k: decode(k, v) for k, v in st_ch.items()})
+                            f = type(parent['ps'])(**f).get_fields()
+                        want = _plain_items(f.items())
+                        if want != want_model:
+                            stats.inc('constructor-normalises-differently-from-the-documented-model')
+                    except Exception:
+                        pass        # the constructor refuses these values: handled below
                     merged = {}
                     for st_ch in steps:
                         merged.update(st_ch)
